@@ -19,18 +19,7 @@ func (c *Check) ruleHeaderCursorRefreshed(rule string) {
 		return
 	}
 	// the cursor: a local initialised from state.LastHash() that is compared with PrevBlock
-	var cursor *ssa.Alloc
-	for _, b := range fn.Blocks {
-		for _, in := range b.Instrs {
-			st, ok := in.(*ssa.Store)
-			if !ok {
-				continue
-			}
-			if al, ok := st.Addr.(*ssa.Alloc); ok && derivesFromCall(st.Val, "(*state.State).LastHash") != nil {
-				cursor = al
-			}
-		}
-	}
+	cursor := headerCursor(fn)
 	if cursor == nil {
 		c.Undecided(rule, "anchor:Handle.lastHash-cursor", fn.Pos(), "no local initialised from state.LastHash() found")
 		return
@@ -340,15 +329,15 @@ func iterationMasks(h *ssa.BasicBlock, mask func(*ssa.BasicBlock) int) map[int][
 		return res
 	}
 	type st struct {
-		b *ssa.BasicBlock
-		m int
+		nd walkNode
+		m  int
 	}
 	type item struct {
 		s    st
 		path []*ssa.BasicBlock
 	}
 	seen := map[st]bool{}
-	work := []item{{st{h, 0}, []*ssa.BasicBlock{h}}}
+	work := []item{{st{walkNode{b: h}, 0}, []*ssa.BasicBlock{h}}}
 	for len(work) > 0 {
 		it := work[len(work)-1]
 		work = work[:len(work)-1]
@@ -356,8 +345,12 @@ func iterationMasks(h *ssa.BasicBlock, mask func(*ssa.BasicBlock) int) map[int][
 			continue
 		}
 		seen[it.s] = true
-		m := it.s.m | mask(it.s.b)
-		for _, s := range it.s.b.Succs {
+		blk := it.s.nd.b
+		m := it.s.m | mask(blk)
+		for i, s := range blk.Succs {
+			if !it.s.nd.feasibleEdge(i) {
+				continue
+			}
 			if s == h {
 				if _, ok := res[m]; !ok {
 					res[m] = append(append([]*ssa.BasicBlock{}, it.path...), h)
@@ -367,7 +360,7 @@ func iterationMasks(h *ssa.BasicBlock, mask func(*ssa.BasicBlock) int) map[int][
 			if !body[s] {
 				continue
 			}
-			work = append(work, item{st{s, m}, append(append([]*ssa.BasicBlock{}, it.path...), s)})
+			work = append(work, item{st{it.s.nd.step(i), m}, append(append([]*ssa.BasicBlock{}, it.path...), s)})
 		}
 	}
 	return res
@@ -718,4 +711,34 @@ func (c *Check) ruleConflictingIteratesCopy(rule string) {
 	if n == 0 {
 		c.Ok(rule, "state.(*MemPool).Conflicting#iterates-copy-while-removing", fn.Pos(), "alias shape", "the spender list is copied before the removing loop")
 	}
+}
+
+// headerCursor finds the loop-local last-hash cursor of HeadersHandler.Handle: the local that is
+// initialised from state.LastHash() and rewritten in the header loop (an expanded helper may hold a
+// copy of it in a parameter; the copy is written once).
+func headerCursor(fn *ssa.Function) *ssa.Alloc {
+	var best *ssa.Alloc
+	bestN := 0
+	for _, b := range fn.Blocks {
+		for _, in := range b.Instrs {
+			st, ok := in.(*ssa.Store)
+			if !ok {
+				continue
+			}
+			al, ok := st.Addr.(*ssa.Alloc)
+			if !ok || derivesFromCall(st.Val, "(*state.State).LastHash") == nil {
+				continue
+			}
+			n := 0
+			for _, r := range *al.Referrers() {
+				if s2, ok := r.(*ssa.Store); ok && s2.Addr == ssa.Value(al) {
+					n++
+				}
+			}
+			if n > bestN {
+				best, bestN = al, n
+			}
+		}
+	}
+	return best
 }
